@@ -161,6 +161,11 @@ func (c *upstreamHealthcheckConfig) validate() (err error) {
 		return newNotPositiveError("backoff_duration", c.BackoffDuration)
 	}
 
+	err = forward.ValidateHealthcheckDomainTmpl(c.DomainTmpl)
+	if err != nil {
+		return fmt.Errorf("domain_template: %w", err)
+	}
+
 	return nil
 }
 
